@@ -418,6 +418,14 @@ impl Transport for LocalTransport {
                     bytes_written
                 );
 
+                // Preserve modification time (as copy_file does)
+                if let Ok(mtime) = source_meta.modified() {
+                    let _ = filetime::set_file_mtime(
+                        &dest,
+                        filetime::FileTime::from_system_time(mtime),
+                    );
+                }
+
                 return Ok(TransferResult::new(bytes_written));
             }
 
@@ -452,6 +460,14 @@ impl Transport for LocalTransport {
                             path: source.clone(),
                             source: e,
                         })?;
+
+                        // Preserve modification time (as copy_file does)
+                        if let Ok(mtime) = source_meta.modified() {
+                            let _ = filetime::set_file_mtime(
+                                &dest,
+                                filetime::FileTime::from_system_time(mtime),
+                            );
+                        }
 
                         return Ok(TransferResult::new(bytes_written));
                     }
@@ -807,6 +823,11 @@ impl Transport for LocalTransport {
 
             // Defuse temp file guard - file successfully renamed
             temp_guard.defuse();
+
+            // Preserve modification time (as copy_file does); otherwise the next run sees a changed file
+            if let Ok(mtime) = source_meta.modified() {
+                let _ = filetime::set_file_mtime(&dest, filetime::FileTime::from_system_time(mtime));
+            }
 
             let total_blocks = bytes_written.div_ceil(block_size as u64) as usize;
             tracing::info!(
